@@ -95,9 +95,27 @@ impl<'a> Recorder<'a> {
     /// execute and record; returns false when the object panicked (trace ends)
     pub fn call(&mut self, w: &mut World, c: HCall) -> bool {
         let before = w.gs.get(c.h).and_then(|x| x.as_ref()).map(|g| g.snap());
+        // a script is judged against the same API calls applied to a copy of the graph it is deployed to
+        let mut direct: Option<Value> = None;
+        if let Call::Deploy { prog, fault_at, .. } = &c.call {
+            if let Ok(mut twin) = w.g(c.h).dup() {
+                let n = prog.as_array().map(|a| a.len()).unwrap_or(0);
+                let upto = if *fault_at == 0 { n } else { fault_at - 1 };
+                direct = Some(match crate::exec::apply_program(twin.as_mut(), prog, upto) {
+                    Ok(()) => match crate::model::project(twin.as_ref(), &w.labels) {
+                        Ok((a, _)) => a.to_trace_json(),
+                        Err(s) => json!({"broken": s}),
+                    },
+                    Err(p) => json!({"broken": format!("the direct calls panicked: {p}")}),
+                });
+            }
+        }
         let ret = w.exec(&c);
         let after = w.gs.get(c.h).and_then(|x| x.as_ref()).map(|g| g.snap());
         let mut e = w.event(self.tid, &c, &ret, before == after);
+        if let Some(d) = direct {
+            e["direct"] = d;
+        }
         if self.mirror_next {
             e["mirror"] = json!(true);
             self.mirror_next = false;
